@@ -1,18 +1,19 @@
 #!/bin/bash
 # tools/seedrun.sh <patch.diff> <ID>... : run quick checks against a seeded change WITHOUT touching
 # /repo: a private worktree of /repo gets the patch, a private copy of the harness is pointed at
-# it (path rewrite), built into harness/target-seed and run with evidence redirected.
+# it (path rewrite), built into harness/target-seed (override with SEED_TARGET_DIR; concurrent
+# callers serialise on cargo's lock) and run with evidence redirected.
 set -e
 PATCH=$1; shift
-R=/tmp/seedrun/repo; H=/tmp/seedrun/verif
+B=/tmp/seedrun.$$; R=$B/repo; H=$B/verif
 git -C /repo worktree remove --force $R 2>/dev/null || true
-rm -rf /tmp/seedrun; mkdir -p /tmp/seedrun/out
+rm -rf $B; mkdir -p $B/out
 git -C /repo worktree add -q $R HEAD
 (cd $R && (git apply "$PATCH" || git apply --3way "$PATCH")) || { echo "PATCH DOES NOT APPLY"; exit 3; }
 mkdir -p $H; (cd /verif && tar -c --exclude='harness/target*' --exclude=replays --exclude=.git harness known_findings.json MANIFEST.json) | tar -x -C $H
 grep -rl '/repo/' $H/harness --include=*.toml --include=*.rs | xargs sed -i "s#/repo/#$R/#g"
-export CARGO_TARGET_DIR=/verif/harness/target-seed VERIF_DIR=/tmp/seedrun/out
-cp /verif/known_findings.json /tmp/seedrun/out/
+export CARGO_TARGET_DIR=${SEED_TARGET_DIR:-/verif/harness/target-seed} VERIF_DIR=$B/out
+cp /verif/known_findings.json $B/out/
 cd $H/harness
 for id in "$@"; do
   case $id in C01|C02|C28) pkg=vfs;; C27) pkg=wasmmc;; *) pkg=vmc;; esac
@@ -21,4 +22,4 @@ for id in "$@"; do
   echo "$id rc=$rc :: $(echo "$out" | grep -E 'done:|MACHINERY' | tail -1 | cut -c1-150)"
   echo "$out" | grep -E "what:" | head -2 | cut -c1-400
 done
-git -C /repo worktree remove --force $R
+git -C /repo worktree remove --force $R; rm -rf $B
